@@ -1,6 +1,6 @@
 (* C05 — tight packing: padding only where alignment demands it. *)
 From Coq Require Import ZArith List Bool.
-From Cntgs Require Import Base BaseLemmas Layout LayoutThm Mem Vector Spec Rep EsizeThm Refine TightThm.
+From Cntgs Require Import Base BaseLemmas Layout LayoutThm Mem Vector Spec Rep EsizeThm Refine TightThm NtRefine.
 Import ListNotations.
 Local Open Scope Z_scope.
 
@@ -66,3 +66,17 @@ Theorem C05_every_history_tightly_packed : forall L cap budget fixed aid junk bi
   (dend L v = prev_end L v l (length l) \/ dend L v = first_align L (prev_end L v l (length l))).
 Proof. exact tight_every_history. Qed.
 Print Assumptions C05_every_history_tightly_packed.
+
+(* ... and for EVERY well-formed list, non-trivial value types included (erase with elements
+   behind the erased ones only on trivially relocatable lists, NtRefine.nt_hist_ok) *)
+Theorem C05_every_history_tightly_packed_every_list : forall L cap budget fixed aid junk bid tbid h,
+  wf_plist L = true -> 0 <= cap -> Forall (fun c => 0 <= c) fixed ->
+  let v0 := fst (mkvec L cap budget fixed aid junk bid tbid) in
+  let s0 := {| s_cap := cap; s_elems := [] |} in
+  shist_valid L (fixed_counts L fixed) s0 h -> nt_hist_ok L s0 h ->
+  let v := vrun L junk v0 h in
+  let l := s_elems (srun s0 h) in
+  (forall i, (i < length l)%nat -> eaddr L v (Z.of_nat i) = first_align L (prev_end L v l i)) /\
+  (dend L v = prev_end L v l (length l) \/ dend L v = first_align L (prev_end L v l (length l))).
+Proof. exact tight_every_history_nt. Qed.
+Print Assumptions C05_every_history_tightly_packed_every_list.
